@@ -188,6 +188,8 @@ def run(ctx):
                 iv = [(n, s, e) for n, s, e, v in flat]
                 extra = [(n, s, e) for (n, s, e) in iv if r.random() < 0.3]
                 iv2 = sorted(iv + extra, key=lambda t: (names.index(t[0]), t[1]))
+                if r.random() < 0.5:
+                    r.shuffle(iv2)          # interval sets need not be sorted or grouped by chromosome
                 t = Interval([x[0] for x in iv2], np.array([x[1] for x in iv2], dtype=int), np.array([x[2] for x in iv2], dtype=int))
                 ga = genome.get_intervals(t).get_mask()
             else:
@@ -216,6 +218,8 @@ def run(ctx):
                     a = r.randint(0, sizes[n] - 1)
                     ivs.append((n, a, r.randint(a + 1, sizes[n])))
             ivs.sort(key=lambda t: (names.index(t[0]), t[1]))
+            if r.random() < 0.5:
+                r.shuffle(ivs)
             if ivs:
                 t = Interval([x[0] for x in ivs], np.array([x[1] for x in ivs], dtype=int), np.array([x[2] for x in ivs], dtype=int))
                 pu = genome.get_intervals(t).get_pileup().to_dict()
@@ -278,7 +282,7 @@ def run(ctx):
                       dict(wit, expr=txt, records=list(zip(chroms, starts, stops, vals))[:12]), (key, txt, "back"))
             str(res)
 
-    for i in range(ctx.share(ctx.pick(400, 10000))):
+    for i in range(ctx.share(ctx.pick(1600, 20000))):
         ctx.run_case(one, {"seed": rng.randrange(2 ** 40), "n_expr": 4})
     ctx.sample({"example": "genome {chr1: 8, chr10: 3}; t0 = bedGraph [(chr1,0,3,1.5),(chr1,4,8,2.0)]; expr (5 - t0) > 3; compared per base with NumPy"})
     ctx.floor("judged:expression", ctx.pick(200, 5000))
